@@ -62,9 +62,9 @@ def _work_chunk(chunk):
 
 def run_all(cases, procs=None, chunk=8):
     procs = procs or core.NCPU
-    ctx = mp.get_context("fork")
+    ctx = mp.get_context("spawn")
     outs = [None] * len(cases)
-    pool = ctx.Pool(procs, maxtasksperchild=25)
+    pool = ctx.Pool(procs, maxtasksperchild=40)
     try:
         jobs = [(k, pool.apply_async(_work_chunk, (cases[k:k + chunk],))) for k in range(0, len(cases), chunk)]
         for k, j in jobs:
